@@ -60,7 +60,12 @@ cdef class PriorityQueue:
 		'''Add item with given score to the heap.'''
 		# Item stored with score in a tupel where the score is always the first position..
 		cdef priority_type_ptr c_score = _pyscore_to_vector(score)
-		self.c_push(c_score, item)
+		# The position map holds one entry per item: a second heap entry for an item that is
+		# still queued would orphan the first one, so the item gets the new score instead.
+		if self.positions.find(item) != self.positions.end():
+			self.c_change_score(item, c_score)
+		else:
+			self.c_push(c_score, item)
 
 	cdef void c_push(self, priority_type_ptr score, int item):
 		'''Pointer ownership is transferred to priorityqueue.'''
